@@ -183,59 +183,134 @@ def equivalence_chain(spec):
 K3_TAG = " [second search: a pair whose two labels already had rules from other pairings was accepted without re-validating its children under the new pairing]"
 
 
-def diagnose(classes, packs):
-    """Classify a finder failure (diagnosis only, never an oracle): re-run the plain finder's two
-    searches on fresh searchers and look at how the second search accepted its pairs.  Returns the
-    tag of known finding K3 when the failure is exactly that one, else ''."""
+def _monitored_clean(flag):
+    """_clean_descendants with its post-condition checked against an independent computation: exactly the
+    labels assigned during the failed attempt are un-assigned.  A diagnosis run in which this does not hold is
+    never tagged as K3 (something else is broken)."""
+
+    from comb_spec_searcher import bijection as B
+
+    orig = getattr(B.ParallelSpecFinder, "_clean_descendants", None)
+    if orig is None:
+        return None, None  # internals renamed: the diagnosis goes without this monitor
+
+    def wrapped(to_clean1, to_clean2, id1, id2, sp1, sp2, rec1, rec2):
+        want1 = {k: v for k, v in sp1.items() if k not in to_clean1 and not (k == id1 and not rec1)}
+        want2 = {k: v for k, v in sp2.items() if k not in to_clean2 and not (k == id2 and not rec2)}
+        r = orig(to_clean1, to_clean2, id1, id2, sp1, sp2, rec1, rec2)
+        if dict(sp1) != want1 or dict(sp2) != want2:
+            flag.append((id1, id2))
+        return r
+
+    return orig, staticmethod(wrapped)
+
+
+def diagnose(classes, packs, variant="plain"):
+    """Classify a finder failure (diagnosis only, never an oracle): re-run the finder's two searches on fresh
+    searchers and look at how the second search accepted its pairs.  Returns the tag of known finding K3 when
+    the failure is exactly that one, else ''."""
     from collections import defaultdict
 
     from comb_spec_searcher import bijection as B
 
+    P = B.ParallelSpecFinder
+    bad_clean = []
+    orig_clean, wrapped_clean = _monitored_clean(bad_clean)
     try:
         searchers = [CombinatorialSpecificationSearcher(c, p) for c, p in zip(classes, packs)]
-        f = B.ParallelSpecFinder(*searchers)
+        f = P(*searchers)
         shortcuts = []
-        orig = B.ParallelSpecFinder._search_matching_info_recursion_base_cases  # pylint: disable=protected-access
+        orig = P._search_matching_info_recursion_base_cases  # pylint: disable=protected-access
 
         def wrapped(id1, id2, mi, mi1, mi2, sp1, sp2):
             both = id1 in sp1 and id2 in sp2 and sp1[id1] != ()
             r = orig(id1, id2, mi, mi1, mi2, sp1, sp2)
-            if both and r == B.ParallelSpecFinder._VALID:  # pylint: disable=protected-access
+            if both and r == P._VALID:  # pylint: disable=protected-access
                 shortcuts.append((id1, id2, sp1[id1], sp2[id2]))
             return r
 
-        B.ParallelSpecFinder._search_matching_info_recursion_base_cases = staticmethod(wrapped)  # pylint: disable=protected-access
+        P._search_matching_info_recursion_base_cases = staticmethod(wrapped)  # pylint: disable=protected-access
+        if wrapped_clean is not None:
+            P._clean_descendants = wrapped_clean  # pylint: disable=protected-access
         try:
             mi = defaultdict(dict)
             if not f._find(f._pi1.root_eq_label, f._pi2.root_eq_label, mi, set()):  # pylint: disable=protected-access
                 return ""
             sp = f._search_matching_info(mi)  # pylint: disable=protected-access
         finally:
-            B.ParallelSpecFinder._search_matching_info_recursion_base_cases = staticmethod(orig)  # pylint: disable=protected-access
-        if sp is None:
+            P._search_matching_info_recursion_base_cases = staticmethod(orig)  # pylint: disable=protected-access
+            if orig_clean is not None:
+                P._clean_descendants = staticmethod(orig_clean)  # pylint: disable=protected-access
+        if bad_clean:
             return ""
-        sp1, sp2 = sp
+        if sp is not None:
+            sp1, sp2 = sp
 
-        def bad_below(a, b, seen):
-            if (a, b) in seen:
-                return False
-            seen.add((a, b))
-            ca, cb = sp1.get(a), sp2.get(b)
-            if ca is None or cb is None:
-                # a hole in the label maps is never produced by the short-cut: some other defect
-                raise LookupError((a, b))
-            if (ca, cb) not in mi[(a, b)]:
-                return True
-            return any(bad_below(ca[i], cb[k], seen) for k, i in enumerate(mi[(a, b)][(ca, cb)]))
+            def bad_below(a, b, seen):
+                if (a, b) in seen:
+                    return False
+                seen.add((a, b))
+                ca, cb = sp1.get(a), sp2.get(b)
+                if ca is None or cb is None:
+                    # a hole in the label maps is never produced by the short-cut: some other defect
+                    raise LookupError((a, b))
+                if (ca, cb) not in mi[(a, b)]:
+                    return True
+                return any(bad_below(ca[i], cb[k], seen) for k, i in enumerate(mi[(a, b)][(ca, cb)]))
 
-        for a, b, ra, rb in shortcuts:
-            if (ra, rb) not in mi[(a, b)]:
-                return ""  # the short-cut itself accepted an unmatched pair: not K3
-            if sp1.get(a) == ra and sp2.get(b) == rb and any(bad_below(ra[i], rb[k], set()) for k, i in enumerate(mi[(a, b)][(ra, rb)])):
-                return K3_TAG
+            for a, b, ra, rb in shortcuts:
+                if (ra, rb) not in mi[(a, b)]:
+                    return ""  # the short-cut itself accepted an unmatched pair: not K3
+                if sp1.get(a) == ra and sp2.get(b) == rb and any(bad_below(ra[i], rb[k], set()) for k, i in enumerate(mi[(a, b)][(ra, rb)])):
+                    return K3_TAG
     except Exception:  # pylint: disable=broad-except
         return ""
+    if variant == "eqpath":
+        return _diagnose_eqpath(classes, packs)
     return ""
+
+
+def _diagnose_eqpath(classes, packs):
+    """The same short-cut in the equivalence-path variant shows as a KeyError: after accepting a pair whose two
+    labels are already assigned, _validate_atoms_for_existing_entries walks down the *existing* assignments and
+    looks each descendant pair up in the matching information, where a descendant pair that was never
+    validated under this pairing is missing.  Tagged only if (a) the lookup that fails is for a descendant
+    (not for the accepted pair itself), (b) both labels of that descendant are assigned, and (c) every
+    clean-up of the run did exactly what it should."""
+    from comb_spec_searcher import bijection as B
+
+    P, E = B.ParallelSpecFinder, B.EqPathParallelSpecFinder
+    bad_clean = []
+    orig_clean, wrapped_clean = _monitored_clean(bad_clean)
+    orig_val = E._validate_atoms_for_existing_entries  # pylint: disable=protected-access
+    seen = []
+
+    def wrapped_val(self, id1, id2, sp1, sp2, matching_info, mem):
+        c1, c2 = sp1.get(id1), sp2.get(id2)
+        if c1 is not None and c2 is not None and not c1 == () == c2 and (id1, id2) not in mem and (c1, c2) not in matching_info[(id1, id2)]:
+            seen.append(("descendant" if mem else "top", id1, id2))
+        return orig_val(self, id1, id2, sp1, sp2, matching_info, mem)
+
+    try:
+        searchers = [CombinatorialSpecificationSearcher(c, p) for c, p in zip(classes, packs)]
+        f = E(*searchers)
+        if wrapped_clean is not None:
+            P._clean_descendants = wrapped_clean  # pylint: disable=protected-access
+        E._validate_atoms_for_existing_entries = wrapped_val  # pylint: disable=protected-access
+        try:
+            f.find()
+            return ""
+        except KeyError:
+            pass
+        finally:
+            if orig_clean is not None:
+                P._clean_descendants = staticmethod(orig_clean)  # pylint: disable=protected-access
+            E._validate_atoms_for_existing_entries = orig_val  # pylint: disable=protected-access
+    except Exception:  # pylint: disable=broad-except
+        return ""
+    if bad_clean or not seen or seen[-1][0] != "descendant":
+        return ""
+    return K3_TAG
 
 
 def execute(R, ctx):
@@ -322,7 +397,7 @@ def execute(R, ctx):
                 import traceback
 
                 where = traceback.extract_tb(e.__traceback__)[-1]
-                note = diagnose(classes, packs)
+                note = diagnose(classes, packs, R["variant"])
                 raise Violation(
                     f"C13:finder-raised-{type(e).__name__}",
                     f"{Finder.__name__}.find() raised {type(e).__name__}: {str(e)[:120]} at {where.name} for {classes[0]} / {classes[1]}{note}",
@@ -351,7 +426,7 @@ def execute(R, ctx):
         chain = any(equivalence_chain(s) for s in res)
         note = " [a specification has consecutive equivalence rules through visible classes]" if chain else ""
         if not chain and not (Isomorphism.check(res[0], res[1]) and Isomorphism.check(res[1], res[0])):
-            note = diagnose(classes, packs)
+            note = diagnose(classes, packs, R["variant"])
         if chain:
             ctx.probe("equivalence_chain_in_spec")
         if not Isomorphism.check(res[0], res[1]):
